@@ -424,6 +424,8 @@ def _case(seed: int) -> Dict[str, Any]:
 
     kw = dict(n_threads=1 + seed % 2, n_streams=1 + seed % 3, steps=seed % 3, p_missing_kernel=0.1, p_orphan_kernel=0.1, p_memcpy=0.35, p_same_ts_kernel=0.5, p_zero_kernel=0.2, n_top=3)
     nr = 1 + seed % 2
+    if seed % 5 == 1:
+        kw["p_skew"] = 0.5  # device clock behind the host clock: an activity may start before the call that launched it; the pair is linked all the same
     per_rank = gen.gen_trace_set(seed, n_ranks=nr, **kw)
     fails: List[Dict[str, Any]] = []
     n = 0
